@@ -141,6 +141,10 @@ func canon(s []span) ([]span, error) {
 						// There is a gap; cannot merge.
 						break
 					}
+					if next.min.greaterThan(this.max) && (this.maxOpen || next.minOpen) {
+						// They abut, but an end is excluded: also a gap.
+						break
+					}
 				} else {
 					continue // Too difficult for now, but may be covered by another span. TODO?
 				}
